@@ -49,11 +49,14 @@ class Experiment:
     def simulate(self, th, spec, sync=False):
         rid = self.new_run()
         roots = [self.root(th, rid, i + 1, r, spec['start'], sync and i == 0) for i, r in enumerate(spec['roots'])]
-        self.rec('enter', th=th, run=rid, start=spec['start'], roots=spec['roots'])
+        till = spec.get('till')
+        self.rec('enter', th=th, run=rid, start=spec['start'], roots=spec['roots'], hastill=till is not None,
+                 till=till if till is not None else 0)
+        kw = {} if till is None else {'till': till}
         out = {'out': 'ok', 'id': 0}
         err = None
         try:
-            usim.run(*roots, start=spec['start'])
+            usim.run(*roots, start=spec['start'], **kw)
         except RootErr as e:
             out = {'out': 'exc', 'id': e.args[0]}
             err = e
@@ -93,6 +96,12 @@ class Experiment:
             self.probe(th, rid, start + r['d'])
             await (time + 1)
             self.probe(th, rid, start + r['d'] + 1)
+        if kind == 'forever':          # only in runs that are ended by `till`
+            k = 0
+            while True:
+                await (time + 1)
+                k += 1
+                self.rec('tick', th=th, run=rid, root=idx, t=time.now, expect=start + r['d'] + k)
         if kind == 'raise':
             self.rec('root_end', th=th, run=rid, root=idx, how='raise')
             raise RootErr(100 * rid + idx)
@@ -122,9 +131,20 @@ class Experiment:
 KINDS = ['ok', 'ok', 'raise', 'ret', 'nested_ok', 'nested_raise']
 
 
+def till_spec(rng):
+    """a run that only `till` (an absolute date) ends: endless roots next to finite ones, any start time"""
+    start = rng.choice([0, 3, -4, 10])
+    return {'start': start, 'till': start + rng.choice([1, 2, 3, 5]),
+            'roots': [{'kind': rng.choice(['forever', 'forever', 'ok']), 'd': rng.choice([0, 1, 2, 4])}
+                      for _ in range(rng.randint(1, 3))]}
+
+
 def random_script(rng, nruns=None):
     out = []
     for _ in range(nruns or rng.randint(1, 3)):
+        if rng.random() < 0.25:
+            out.append(till_spec(rng))
+            continue
         out.append({'start': rng.choice([0, 3]),
                     'roots': [{'kind': rng.choice(KINDS), 'd': rng.choice([0, 1, 2])} for _ in range(rng.randint(1, 3))]})
     return out
